@@ -366,3 +366,86 @@ Example count_examples :
   /\ active (final_state (run (map prog [c1; c2]) [0; 1]%nat init_state))
      = [([104; 0; 97; 58; 50; 53; 53; 54; 53], 2)].
 Proof. vm_compute. repeat split; reflexivity. Qed.
+
+(* ---------- lite.Forward: its exit paths and the track/release program ----------
+
+   Forward (forward.go) leaves through exactly one of these paths, in source order:
+     XNoRoute         findRoute failed                         (return before any dial)
+     XAllDialsFailed  tryBackends exhausted the iterator        (return before TrackConnection)
+     XHandoverFailed  emptyReadBuff failed (ReadBuffered error, or writing the client's buffered
+                      bytes to the backend failed)              (return before TrackConnection)
+     XPiped           TrackConnection; defer decrementConnection; pipe(...) returns
+   Only XPiped executes TrackConnection, and the release is deferred right after it, so the steps
+   a Forward contributes to the shared counters are [prog c] on XPiped and nothing otherwise.  (A
+   Forward that tracked but left without releasing - e.g. TrackConnection moved above the
+   emptyReadBuff return - would be a thread [a_track c; l_inc c], for which the theorems below do
+   not hold; the harness's Forward cases observe exactly that difference.) *)
+Inductive fwd_exit := XNoRoute | XAllDialsFailed | XHandoverFailed | XPiped.
+
+Definition fwd_thread (x : fwd_exit * conn) : list act :=
+  match fst x with XPiped => prog (snd x) | _ => [] end.
+
+(* every exit path that tracks also releases, after it *)
+Lemma fwd_tracks_then_releases : forall x c pre post,
+  fwd_thread (x, c) = pre ++ a_track c :: post -> In (a_release c) post.
+Proof.
+  intros x c pre post H. destruct x; unfold fwd_thread in H; simpl in H;
+    try (destruct pre; discriminate).
+  destruct pre as [|p0 pre]; simpl in H.
+  - inversion H; subst. simpl. auto.
+  - exfalso. inversion H as [[Hp Hr]]. clear H.
+    (* a_track c occurs only at the head of prog c: the other three actions touch other fields *)
+    assert (Hneq : forall a, In a [l_inc c; l_dec c; a_release c] ->
+              active (fst (a init_state)) <> active (fst (a_track c init_state))).
+    { intros a [<-|[<-|[<-|[]]]]; simpl; unfold incr, decr; simpl; discriminate. }
+    assert (Hin : In (a_track c) [l_inc c; l_dec c; a_release c]).
+    { rewrite Hr. apply in_or_app. right. now left. }
+    exact (Hneq _ Hin eq_refl).
+Qed.
+
+Definition fwd_pc (x : fwd_exit) : nat := match x with XPiped => 0%nat | _ => 4%nat end.
+
+Lemma fwd_threads_conf fs :
+  map fwd_thread fs = conf (map (fun x => (snd x, fwd_pc (fst x))) fs).
+Proof.
+  unfold conf. rewrite map_map. apply map_ext. intros [x c]. destruct x; reflexivity.
+Qed.
+
+Lemma inv_start_fwd fs : Inv (active init_state) (map (fun x => (snd x, fwd_pc (fst x))) fs).
+Proof.
+  repeat split.
+  - constructor.
+  - intro k. unfold open_cnt. induction fs as [|[x c] r IH]; simpl; auto. destruct x; simpl; auto.
+  - unfold open_n. induction fs as [|[x c] r IH]; simpl; auto. destruct x; simpl; auto.
+Qed.
+
+(* any number of Forwards, each leaving through any of its exit paths, under any schedule *)
+Theorem forward_count_eq_open : forall (fs : list (fwd_exit * conn)) (sched : list nat),
+  let r := run (map fwd_thread fs) sched init_state in
+  active_total (final_state r) = N.of_nat (open_threads (remaining r)).
+Proof.
+  intros fs sched. rewrite fwd_threads_conf.
+  destruct (run_conf_inv sched _ init_state (inv_start_fwd fs)) as [l' [Hr [_ [_ [_ Ht]]]]].
+  unfold final_state, remaining, active_total. rewrite Hr, open_threads_conf. exact Ht.
+Qed.
+
+Theorem forward_count_zero_at_quiescence : forall (fs : list (fwd_exit * conn)) (sched : list nat),
+  let r := run (map fwd_thread fs) sched init_state in
+  complete (remaining r) = true -> active_total (final_state r) = 0.
+Proof.
+  intros fs sched r Hc. unfold r. rewrite forward_count_eq_open.
+  replace (open_threads (remaining (run (map fwd_thread fs) sched init_state))) with 0%nat; [reflexivity|].
+  symmetry. unfold open_threads. fold r.
+  unfold complete in Hc. rewrite forallb_forall in Hc.
+  induction (remaining r) as [|t ts IH]; [reflexivity|]. simpl.
+  assert (Ht : thread_open t = false).
+  { specialize (Hc t (or_introl eq_refl)). destruct t; [reflexivity|discriminate]. }
+  rewrite Ht. apply IH. intros x Hx. apply Hc. now right.
+Qed.
+
+(* the leak the harness's Forward cases look for, in the model: a thread that tracks and leaves
+   without releasing ends with a count of 1 although nothing is open *)
+Example leaked_track_counts_forever :
+  let c : conn := ([104], [97]) in
+  active_total (final_state (run [[a_track c; l_inc c]] [0; 0]%nat init_state)) = 1.
+Proof. vm_compute. reflexivity. Qed.
